@@ -1,4 +1,5 @@
 import Model.Compress
+import Model.CompressHeap
 import Driver.Util
 namespace Driver.C18
 open Util Compress
@@ -184,6 +185,155 @@ def parseSupported (s : String) : List (String × List String) :=
     | [k] => (k, [])
     | _ => (kv, [])
 
+/-! ### held results (ops `held`, `flight`): the heap machine of Model/CompressHeap.lean, discipline
+    `fresh` (the code that exists), the model's own peers compress with `tagCodec`.
+
+    `held <procs> <step>…` — steps (fields separated by `/`):
+      `h<slot>/<codec>/<dir>/<body>`  call and KEEP the result (`g…`: the call runs in another goroutine);
+                                      dir = enc (Encode(body)) | dec (Decode of an independent encoding of
+                                      body) | rd (a compressed response frame with that body through
+                                      readHeader/readFrame) | ru (an uncompressed one, framer with compressor)
+      `x/<codec>/<dir>/<body>`        call, result dropped at once (`y…`: other goroutine)
+      `c<slot>`   what the holder reads now (enc: after an independent Decode)
+      `i<slot>`   is the caller's input buffer still what it passed?
+      `m<slot>/<pos>/<xx>`  the caller scribbles over its input AFTER the call: in[pos mod len] ^= xx
+      `d<slot>`   drop
+    `flight <codec> <procs> <step>…` — responses in flight on real connections:
+      `q<id>/<conn>/<kind>/<n>/<body>` request sent, the peer has read it · `r<id>/<z|p>` the peer answers
+      (compressed | plain) and the receive loop has decoded it · `p<id>` the consumer reads (Iter.Scan of
+      the n rows / the SUPPORTED values / the body): the concatenation of what it decodes. -/
+
+def modelFramer : Framer := newFramer (some tagCodec) 4
+
+def modelF : Dir → List UInt8 → Except Unit (List UInt8) := connF modelFramer tagCodec
+
+/-- the wire the model's server sends for a body (stream = slot) -/
+def modelWire (compressed : Bool) (stream : Nat) (body : List UInt8) : Option (List UInt8) :=
+  match modelFramer.build (if compressed then 1 else 0) 8 (Int.ofNat (stream % 32768)) body with
+  | .ok w => some w
+  | .error _ => none
+
+/-- the argument the caller passes for (dir, body) -/
+def heldArg (dir : String) (slot : Nat) (body : List UInt8) : Option (Dir × List UInt8) :=
+  match dir with
+  | "enc" => some (.enc, body)
+  | "dec" => match tagCodec.enc body with
+    | .ok z => some (.dec, z)
+    | .error _ => none
+  | "rd" => (modelWire true slot body).map fun w => (.recv, w)
+  | "ru" => (modelWire false slot body).map fun w => (.recv, w)
+  | _ => none
+
+def showHeld (s : St) (k : Nat) : String :=
+  match s.lookup k, s.chk k with
+  | some sl, some b =>
+    if sl.dir == .enc then
+      match tagCodec.dec b with
+      | .ok x => canon x
+      | .error _ => "undecodable"
+    else canon b
+  | _, _ => "none"
+
+def parseHexByte (s : String) : Option UInt8 :=
+  match parseHexBig s with
+  | some [b] => some b
+  | _ => none
+
+def heldStep (s : St) (tok : String) : St × String :=
+  match tok.toList with
+  | [] => (s, "bad-step")
+  | t :: rest =>
+    let fields := (String.ofList rest).splitOn "/"
+    if t == 'h' || t == 'g' || t == 'x' || t == 'y' then
+      match fields with
+      | [slot, _, dir, body] =>
+        let k? : Option Nat := if t == 'x' || t == 'y' then some 1000000 else slot.toNat?
+        match k?, parseBytes body with
+        | some k, some b =>
+          match heldArg dir k b with
+          | some (d, arg) =>
+            let s' := step .fresh modelF s (.hold k d arg)
+            let ans := if (s'.lookup k).isSome then "ok" else "err"
+            if t == 'x' || t == 'y' then (step .fresh modelF s' (.drop k), ans) else (s', ans)
+          | none => (s, "bad-step")
+        | _, _ => (s, "bad-step")
+      | _ => (s, "bad-step")
+    else if t == 'c' then
+      match fields with
+      | [slot] => match slot.toNat? with
+        | some k => (s, s!"s{k}={showHeld s k}")
+        | none => (s, "bad-step")
+      | _ => (s, "bad-step")
+    else if t == 'i' then
+      match fields with
+      | [slot] => match slot.toNat? with
+        | some k =>
+          match s.lookup k, s.input k with
+          | some sl, some b => (s, s!"in{k}={if b == sl.arg then "same" else "changed"}")
+          | _, _ => (s, s!"in{k}=none")
+        | none => (s, "bad-step")
+      | _ => (s, "bad-step")
+    else if t == 'm' then
+      match fields with
+      | [slot, pos, xx] => match slot.toNat?, pos.toNat?, parseHexByte xx with
+        | some k, some i, some x =>
+          match s.lookup k with
+          | some sl => if sl.inp.len == 0 then (s, "ok") else (step .fresh modelF s (.mutIn k (i % sl.inp.len) x), "ok")
+          | none => (s, "ok")
+        | _, _, _ => (s, "bad-step")
+      | _ => (s, "bad-step")
+    else if t == 'd' then
+      match fields with
+      | [slot] => match slot.toNat? with
+        | some k => (step .fresh modelF s (.drop k), "ok")
+        | none => (s, "bad-step")
+      | _ => (s, "bad-step")
+    else (s, "bad-step")
+
+def runSteps {σ : Type} (f : σ → String → σ × String) (s : σ) (toks : List String) : String :=
+  let r := toks.foldl (fun (acc : σ × List String) tok => let p := f acc.1 tok; (p.1, p.2 :: acc.2)) (s, [])
+  " ".intercalate r.2.reverse
+
+structure Flight where
+  st   : St
+  reqs : List (Nat × Nat × List UInt8)   -- id ↦ (n, body)
+
+def flightStep (fl : Flight) (tok : String) : Flight × String :=
+  match tok.toList with
+  | [] => (fl, "bad-step")
+  | t :: rest =>
+    let fields := (String.ofList rest).splitOn "/"
+    if t == 'q' then
+      match fields with
+      | [id, _, _, n, body] => match id.toNat?, n.toNat?, parseBytes body with
+        | some id, some n, some b => ({ fl with reqs := (id, n, b) :: fl.reqs }, "ok")
+        | _, _, _ => (fl, "bad-step")
+      | _ => (fl, "bad-step")
+    else if t == 'r' then
+      match fields with
+      | [id, mode] => match id.toNat? with
+        | some id =>
+          match fl.reqs.find? (·.1 == id) with
+          | some (_, _, b) =>
+            match modelWire (mode == "z") id b with
+            | some w =>
+              let s' := step .fresh modelF fl.st (.hold id .recv w)
+              ({ fl with st := s' }, if (s'.lookup id).isSome then "ok" else "err")
+            | none => (fl, "bad-step")
+          | none => (fl, "bad-step")
+        | none => (fl, "bad-step")
+      | _ => (fl, "bad-step")
+    else if t == 'p' then
+      match fields with
+      | [id] => match id.toNat? with
+        | some id =>
+          match fl.reqs.find? (·.1 == id) with
+          | some (_, n, _) => (fl, s!"p{id}={showHeld fl.st id},n={n}")
+          | none => (fl, "bad-step")
+        | none => (fl, "bad-step")
+      | _ => (fl, "bad-step")
+    else (fl, "bad-step")
+
 def step (_ : Unit) (ws : List String) : Unit × String :=
   ((), match ws with
   | ["req", kind, comp, ver, extra, stream, body, encres, _, _] =>
@@ -266,6 +416,8 @@ def step (_ : Unit) (ws : List String) : Unit × String :=
       | .ok _ => "ok"
       | .error e => errName e
     s!"kept={cc.isSome} startup={n.startupOpt.getD "-"} qflag={qflag} cresp={cresp} alive=true"
+  | "held" :: _ :: toks => runSteps heldStep St.init toks
+  | "flight" :: _ :: _ :: toks => runSteps flightStep { st := St.init, reqs := [] } toks
   | _ => "bad-op")
 
 def init : Unit := ()
